@@ -2832,10 +2832,23 @@ func ruleSubPathFromSplitterOnly(id string) func(*Checker) {
 	return func(c *Checker) {
 		c.rule(id, "In the parsers that split an address into package and sub-path, the sub-path handed to the normaliser is the second result of the one sub-path splitter, as returned: it is not merged with a second derivation (another search for \"//\" elsewhere in the address). The splitter stops at the query string and the printers rely on it: they put the query out as it is, so a parser that also looks behind the '?' reads back a value with a doubled slash in its query as a shorter query plus a sub-path.", 2)
 		p := c.P
-		split := p.Fn(addrPkg, "splitSubPath")
-		norm := p.Fn(addrPkg, "normalizeSubpath")
+		// found by role, not by name: the splitter is the (string, string) function whose second result the
+		// sanitisers are fed; the normaliser is the one-parameter sanitiser
+		var split, norm *ssa.Function
+		if sp := p.subPathSplitters(); len(sp) == 1 {
+			split = sp[0]
+		}
+		for f := range p.subPathSanitisers() {
+			if len(f.Params) == 1 && isStringType(f.Params[0].Type()) {
+				if norm != nil && norm != f {
+					norm = nil
+					break
+				}
+				norm = f
+			}
+		}
 		if split == nil || norm == nil {
-			c.anchorMissing(id, "splitSubPath / normalizeSubpath")
+			c.anchorMissing(id, "the sub-path splitter and the one-argument sub-path sanitiser")
 			return
 		}
 		isSplitRes := func(v ssa.Value, idx int) bool {
@@ -2900,9 +2913,16 @@ func ruleRecordNotBehindMemo(id string) func(*Checker) {
 	return func(c *Checker) {
 		c.rule(id, "In the exported Add… methods of the builder, an update of a Builder map that the manifest writer reads is not made only on the miss edge (or only on the hit edge) of a comma-ok lookup in another Builder map: the other map is filled by dependency discovery as well, so whether the lookup hits depends on the order of the calls, and the manifest — which must be a function of the set of requests — would record the request in one order and not in the other. (Today the entry points update no manifest table at all; the rule arms itself when one does.)", 0)
 		p := c.P
-		wm := p.Fn(bundlePkg, "Builder.writeManifest")
+		var wm *ssa.Function
+		if closeFn := p.Fn(bundlePkg, "Builder.Close"); closeFn != nil {
+			for _, ci := range callsIn(closeFn) {
+				if g := ci.Common().StaticCallee(); g != nil && inBundlePkg(p, g) && len(fsSinkSites([]*ssa.Function{g})) > 0 {
+					wm = g
+				}
+			}
+		}
 		if wm == nil {
-			c.anchorMissing(id, "Builder.writeManifest")
+			c.anchorMissing(id, "the manifest writer called from Builder.Close")
 			return
 		}
 		read := map[string]bool{}
@@ -3050,9 +3070,9 @@ func ruleQueuesDrained(id string) func(*Checker) {
 	return func(c *Checker) {
 		c.rule(id, "Builder.resolvePending returns only past the empty edge of a length test of EACH pending queue (remote and registry), and nothing that can add to a queue — a store into a pending field, a call of module code, a dynamic call — lies between that edge and the return: analysing a remote artifact can report registry sources (and the reverse), so one pass per queue, or an exit test that looks at one queue only, leaves requests queued when the Add call returns; they are resolved by whichever Add call comes next, or never.", 2)
 		p := c.P
-		fn := p.Fn(bundlePkg, "Builder.resolvePending")
+		fn := drainEntry(p)
 		if fn == nil {
-			c.anchorMissing(id, "Builder.resolvePending")
+			c.anchorMissing(id, "the draining entry point (the one function the exported Add… methods call that reaches FindDependencies)")
 			return
 		}
 		name := p.FuncName(fn)
@@ -3974,4 +3994,38 @@ func ruleSanitisersAgree(id string) func(*Checker) {
 			c.check(len(missing) == 0, id, p.FuncName(f), "refuses what its sibling refuses", p.Pos(f.Pos()), "the same characters are refused", "this sanitiser lets through "+strings.Join(missing, ", ")+": an address built on this route prints to a string the other route refuses")
 		}
 	}
+}
+
+// drainEntry: the function of the bundle package that the exported Add… methods of Builder call and from which the
+// call of DependencyFinder.FindDependencies is reached — found by role, whatever it is called.
+func drainEntry(p *Prog) *ssa.Function {
+	inner, _ := drainFunc(p)
+	if inner == nil {
+		return nil
+	}
+	count := map[*ssa.Function]int{}
+	for _, fn := range p.Funcs {
+		if !inBundlePkg(p, fn) || fn.Signature.Recv() == nil || !isNamedT(derefType(fn.Signature.Recv().Type()), "Builder") {
+			continue
+		}
+		if !ast.IsExported(fn.Name()) || !strings.HasPrefix(fn.Name(), "Add") {
+			continue
+		}
+		for _, ci := range callsIn(fn) {
+			g := ci.Common().StaticCallee()
+			if g == nil || !inBundlePkg(p, g) || ast.IsExported(g.Name()) {
+				continue
+			}
+			if g == inner || p.reach(g)[inner] {
+				count[g]++
+			}
+		}
+	}
+	var best *ssa.Function
+	for g, n := range count {
+		if best == nil || n > count[best] || (n == count[best] && g.Pos() < best.Pos()) {
+			best = g
+		}
+	}
+	return best
 }
